@@ -110,12 +110,26 @@ def run_sharded(binary, args, nshards=None, timeout=None, env_extra=None):
     merged = dict(evaluations=0, nontrivial=0, counters={}, samples=[], outcomes=set(), violations=[],
                   violation_keys={}, crashed=[], timed_out=False)
     deadline = time.time() + timeout if timeout else None
-    for i, p in enumerate(procs):
+    # drain all shards concurrently: a shard blocked on a full stdout pipe would look like a hang
+    import threading
+    outputs = [None] * len(procs)
+
+    def drain(i, p):
         try:
             out, err = p.communicate(timeout=max(1, deadline - time.time()) if deadline else None)
+            outputs[i] = (out, err, False)
         except subprocess.TimeoutExpired:
             p.kill()
             out, err = p.communicate()
+            outputs[i] = (out, err, True)
+    threads = [threading.Thread(target=drain, args=(i, p)) for i, p in enumerate(procs)]
+    for t in threads:
+        t.start()
+    for t in threads:
+        t.join()
+    for i, p in enumerate(procs):
+        out, err, to = outputs[i]
+        if to:
             merged["timed_out"] = True
         got_summary = False
         for line in out.decode("utf-8", "replace").splitlines():
